@@ -179,6 +179,11 @@ def _run_task(args):
     except Exception as e:
         from .engine import Unsupported
         kind = 'unsupported' if isinstance(e, Unsupported) else 'error'
+        if kind == 'error' and isinstance(e, (KeyError, AttributeError, IndexError, TypeError, ValueError, AssertionError)):
+            # a sidecar contract that names a local / effect / shape the code no longer has (e.g. after a
+            # harmless rename): the obligations of this task are UNDECIDED, never a violation (DESIGN app. A)
+            kind = 'unsupported'
+            e = Unsupported('contract does not match the code any more: %r' % (e,))
         return [Result('%s%r' % (fname, tuple(targ)), 'task', kind, detail=repr(e),
                        trace=traceback.format_exc()[-1500:], ms=int((time.time() - t0) * 1000))]
 
